@@ -292,6 +292,49 @@ pub fn run(e: &Engine) {
         rec.class("utf8_boundary_alphabet");
         Ok(())
     });
+    // same-length characters that share the first and the last UTF-8 byte but differ in a middle
+    // byte (U+2603/U+2643, U+1F600/U+1F640), or share only the last byte (U+1603, U+1D100)
+    const SIGMA3: [char; 9] = ['☃', '♃', '☄', 'ᘃ', '😀', '🙀', '𝄀', 'é', 'x'];
+    let mut s3: Vec<String> = vec![String::new()];
+    {
+        let mut frontier = vec![String::new()];
+        for _ in 0..3 {
+            let mut next = vec![];
+            for s in &frontier {
+                for c in SIGMA3 {
+                    let mut t = s.clone();
+                    t.push(c);
+                    next.push(t);
+                }
+            }
+            s3.extend(next.iter().cloned());
+            frontier = next;
+        }
+    }
+    let s3_ref = &s3;
+    let nq3 = 1 + 9 + 81; // queries of <= 2 characters
+    e.run_enum("shared-first-and-last-byte-alphabet-q<=2-k<=3", nq3 as u64 * 3, |idx, rec| {
+        let qstr = &s3_ref[(idx / 3) as usize];
+        let d = (idx % 3) as u32;
+        let q: Vec<char> = qstr.chars().collect();
+        let lev = match crate::engine::catch(|| Levenshtein::new(qstr, d)) {
+            Ok(Ok(l)) => l,
+            Ok(Err(err)) => return Err((json!({"q": qstr, "d": d}), Fail::new("lev-build", format!("Levenshtein::new({:?},{}) failed: {}", qstr, d, err)))),
+            Err(p) => return Err((json!({"q": qstr, "d": d}), Fail::new("panic", format!("Levenshtein::new({:?},{}) panicked: {}", qstr, d, p)))),
+        };
+        for k in s3_ref {
+            rec.eval();
+            if let Err(f) = crate::engine::guarded(|| decide(&lev, &q, d, k).map(|_| ())) {
+                let c = Case { q: qstr.clone(), d, keys: vec![k.clone()], bounds: vec![] };
+                return Err((c.to_json(), f));
+            }
+            if !q.is_empty() && d >= 1 {
+                rec.nontrivial_by_construction();
+            }
+        }
+        rec.class("shared_first_and_last_byte_alphabet");
+        Ok(())
+    });
     // long queries and larger distances (explicit generous state limit), and the default limit:
     // new(q, d) must succeed exactly when the construction needs <= 10 000 states
     e.run_prop(
